@@ -69,6 +69,20 @@ InitBad == \E b \in BadOps : Start(PreText \o GoodPre \o b \o Probe, Ident)
 \* two operators with missing / ill-typed operands, a good show operator in between and the probes after them
 InitBad2 == \E b1 \in BadOps, b2 \in BadOps : Start(PreText \o GoodPre \o b1 \o <<Str(A), Op("Tj")>> \o b2 \o Probe, Ident)
 
+\* an operand that is zero is an operand: every numeric parameter is first given a non-zero value, then one (or two) of
+\* them is set back to 0, then the probes show text, move to the next line and paint
+ZeroPre == PreText \o <<N(1), Op("Tc"), N(2), Op("Tw"), N(3), Op("TL"), N(1), Op("Ts"), N(2), Op("w"), N(1), Op("g"), N(1), Op("G"),
+                        Arr(<<N(2), N(1)>>), N(1), Op("d"), N(2), N(1), Op("Td")>>
+ZeroOps == { Ins("Tc", <<N(0)>>), Ins("Tw", <<N(0)>>), Ins("TL", <<N(0)>>), Ins("Ts", <<N(0)>>), Ins("w", <<N(0)>>), Ins("g", <<N(0)>>),
+             Ins("G", <<N(0)>>), Ins("Td", <<N(0), N(0)>>), Ins("TD", <<N(0), N(0)>>), Ins("rg", <<N(0), N(0), N(0)>>),
+             Ins("RG", <<N(0), N(0), N(0)>>), Ins("k", <<N(0), N(0), N(0), N(0)>>), Ins("K", <<N(0), N(0), N(0), N(0)>>),
+             Ins("d", <<Arr(<<>>), N(0)>>), Ins("\"", <<N(0), N(0), Str(A)>>), Ins("TJ", <<Arr(<<N(0), Str(A), N(0)>>)>>),
+             Ins("Tm", <<N(1), N(0), N(0), N(1), N(0), N(0)>>), Ins("cs", <<Nm("DeviceRGB")>>) \o <<N(0), N(0), N(0), Op("sc")>>,
+             Ins("CS", <<Nm("DeviceGray")>>) \o <<N(0), Op("SC")>>, Ins("Tj", <<Str(<<>>)>>), Ins("TJ", <<Arr(<<>>)>>),
+             Ins("re", <<N(0), N(0), N(0), N(0)>>) \o <<Op("S")>>, Ins("Tz", <<N(100)>>) }
+InitZero == \E z \in ZeroOps : Start(ZeroPre \o z \o Probe, Ident)
+InitZero2 == \E z1 \in ZeroOps, z2 \in ZeroOps : Start(ZeroPre \o z1 \o <<Str(A), Op("Tj")>> \o z2 \o Probe, Ident)
+
 MixPoolAll == GPos \cup GSpace \cup GState \cup GPath \cup GPathCtm \cup GColor
 NoPool == {}
 InitMixed == Start(PreText, Ident)
